@@ -15,9 +15,13 @@ import PhyVerif.Driver.C08
 import PhyVerif.Driver.C05
 open Lean PhyVerif.Driver
 
-def dispatch (j : Json) : R Json := do
+partial def dispatch (j : Json) : R Json := do
   let p ← getStr j "p"
   let op ← getStr j "op"
+  if op == "multi" && p != "C09" then
+    let qs ← fld j "qs" >>= asArr
+    let res ← qs.mapM fun q => dispatch (q.setObjVal! "p" (Json.str p))
+    return Json.mkObj [("res", Json.arr res.toArray)]
   match p with
   | "C16" => runC16 op j
   | "C15" => runC15 op j
